@@ -184,6 +184,12 @@ func OriginAtoms() []OriginAtom {
 		OriginAtom{Value: "https://*.example.co.uk"},
 		OriginAtom{Value: "https://*.uk", PSL: true},
 		OriginAtom{Value: "https://*.blogspot.com:8443", PSL: true},
+		OriginAtom{Value: "http://0xff000000", Malformed: true},
+		OriginAtom{Value: "http://127.0.0.0x1", Malformed: true},
+		OriginAtom{Value: "http://0x7f.0.0.1:8080", Malformed: true},
+		OriginAtom{Value: "http://1.2.3.0x4:*", Malformed: true},
+		OriginAtom{Value: "http://0x7f000001", Malformed: true},
+		OriginAtom{Value: "http://127.1", Malformed: true},
 	)
 	return valid
 }
